@@ -11,6 +11,7 @@ code -> spec : the real AssembleFile under the gate scheduler on generated scena
 """
 import json, os, re
 import vlib
+from checks import cli_common
 
 TRACE_CFG = """SPECIFICATION TSpec
 CONSTANT TraceFile = "@TRACE@"
@@ -92,6 +93,8 @@ def run(rep, tier, seed):
         rep.add_tlc("Assemble design: " + name, r)
         vlib.log("design %s: %d distinct states, %.0fs" % (name, r.distinct, r.wall))
     drive(rep, work, binp, seed, 8000 if thorough else 1200, "assemble")
+    # the command glue: the real binary end to end, judged by CliOutcome.tla
+    cli_common.run(rep, vlib.workdir("C01-cli"), seed, "extract", tier == "thorough")
     rep.rule = ("case = blob of 0-7 chunks over 3 contents + the null chunk (sizes 40-120 bytes, or 200-9000 bytes around the 4096-byte block) x "
                 "prior target in {absent, empty, garbage, longer, shorter, older version, complete} x 0-2 seeds in {consistent, stale, truncated, "
                 "empty index, alias of the target} x action in {bail-out, skip, regenerate} x 1-3 workers x {no cloning, emulated FICLONERANGE} x "
@@ -103,6 +106,11 @@ def run(rep, tier, seed):
 
 
 def replay(path):
+    import json as _json
+    _d = _json.load(open(path))
+    _r = cli_common.replay_if_cli(_d, vlib.workdir("C01-cli-replay"))
+    if _r is not None:
+        return _r
     d = json.load(open(path))
     work = vlib.workdir("C01-replay")
     print(d["what"])
